@@ -478,8 +478,10 @@ func (s *Solver) SolveAll(sp *Specs, obls []*Obligation, workers int) {
 }
 
 // rangeSplit: a goal of the form  forall j. (... and j < T+1 and ...) => B  is equivalent to the conjunction of
-//   forall j. (... and j < T and ...) => B      (the part the induction hypothesis covers)   and
-//   (...)[j:=T] => B[j:=T]                       (the new element).
+//
+//	forall j. (... and j < T and ...) => B      (the part the induction hypothesis covers)   and
+//	(...)[j:=T] => B[j:=T]                       (the new element).
+//
 // The back ends decide the two halves of a preserved range invariant in a fraction of a second where the
 // combined goal can run into the time limit (the case split has to be found under a large path condition).
 // Discharging both halves discharges the goal; anything else falls back to the unsplit goal.
